@@ -24,13 +24,13 @@ RULE_HOME = {
     'G6': 'g_alt', 'G7': 'g_alt',
     'G0': 'g_struct', 'G9': 'g_struct', 'G10': 'g_struct', 'G11': 'g_struct', 'G12': 'g_struct', 'G13': 'g_struct', 'G14': 'g_struct',
     'K1': 'k_keywords', 'K2': 'k_keywords', 'K3': 'k_keywords', 'K4': 'k_keywords',
-    'T1': 't_tree', 'T2': 't_tree', 'T3': 't_tree', 'G4c': 't_tree',
+    'T1': 't_tree', 'T2': 't_tree', 'T3': 't_tree', 'G4c': 't_tree', 'T4': 't_tree',
     'X1': 'x_pp', 'X2': 'x_pp', 'X3': 'x_pp', 'X5': 'x_pp', 'X6': 'x_pp', 'X7': 'x_pp',
     'X8': 'x_calls', 'X9': 'x_calls', 'X10': 'x_calls', 'X11': 'x_calls', 'X12': 'x_calls', 'P2': 'x_calls',
     'W1': 'w_api', 'W2': 'w_api', 'W3': 'w_api', 'W4': 'w_api', 'W5': 'w_api', 'W6': 'w_api',
     'G2': 'g_lex', 'G4': 'g_lex',
     'S1': 's_state', 'S2': 's_state', 'S3': 's_state', 'S4': 's_state', 'S5': 's_state', 'S6': 's_state', 'S7': 's_state',
-    'P1': 'p_panic', 'X4': 'x_emit', 'X13': 'x_macro', 'X14': 'x_macro',
+    'P1': 'p_panic', 'X4': 'x_emit', 'X13': 'x_macro', 'X14': 'x_macro', 'X15': 'x_macro', 'X16': 'x_macro',
 }
 
 
@@ -131,13 +131,13 @@ PROPS = {
         'technique': 'call-site agreement lint (text argument vs recorded range) + who-may-write analysis',
     },
     'C04': {
-        'rules': [rule('X5'), rule('X6'), rule('X7'), rule('G7', keep=LOOKAHEAD)],
+        'rules': [rule('X5'), rule('X6'), rule('X7'), rule('X15'), rule('G7', keep=LOOKAHEAD)],
         'explanation': 'The definedness predicate is evaluated on one name (X5); the `ifdef and `ifndef handlers are the same '
                        'algorithm up to the negated first test (X6); nothing in a skipped region can touch the define table, the '
                        'output, raise an error or start a nested run, because the skip guard precedes every effect of the loop '
                        '(X7); branch bodies end only at a real `elsif/`else/`endif, the look-ahead testing the word boundary (G7b).',
-        'decided': 'X5 X6 X7 G7b',
-        'not_decided': 'that the three nested ifs select the first true branch (X6 only cross-checks the two copies); token-for-token output',
+        'decided': 'X5 X6 X7 X15 G7b (X15: the branch-selection statements of both handlers are interpreted over the four abstract states hit x condition: first branch kept iff its condition holds, an `elsif body skipped iff hit or its condition fails, hit updated as hit or condition, `else skipped iff hit)',
+        'not_decided': 'token-for-token output',
         'assumptions': [],
         'level_text': 'Static sibling-agreement, guard-dominance and predicate-consistency checks over the conditional-compilation '
                       'handlers; each deviating test or unguarded effect is named.',
@@ -161,14 +161,14 @@ PROPS = {
         'technique': 'call-graph SCC + per-edge counter transfer analysis (ranking argument)',
     },
     'C10': {
-        'rules': [rule('X9'), rule('X10'), rule('X11'), rule('X12'), rule('P2')],
+        'rules': [rule('X9'), rule('X10'), rule('X11'), rule('X12'), rule('X16'), rule('P2')],
         'explanation': 'The live define table goes into the nested run and the returned table is adopted, the included text is merged '
                        '(X9, X10); a failing included run is wrapped in Error::Include and a missing file is File{path tried} (X10, '
                        'P2); nothing opens or probes a file unless the arm guard `!ignore_include` holds (X11); flags are forwarded '
                        'to the parameter of the same name (X9); the search uses the literal path when absolute or existing, else '
                        'the include paths in the given order with the first hit winning, and that path is the one opened (X12).',
-        'decided': 'X9 X10 X11 X12 P2',
-        'not_decided': 'file-system semantics of exists/join; the IncludeLine rule (line arithmetic); "contributes no tokens"',
+        'decided': 'X9 X10 X11 X12 X16 P2 (X16: the same-line bookkeeping treats plain text and directives alike, the `include arm records its line and rejects an item already on it)',
+        'not_decided': 'file-system semantics of exists/join; that line numbers compare as the standard intends for multi-line items; "contributes no tokens"',
         'assumptions': [],
         'level_text': 'Static call-site and control-dependence checks on the `include handler; each mis-forwarded argument, dropped result '
                       'or unguarded file access is named.',
@@ -204,12 +204,12 @@ PROPS = {
         'technique': 'nullability fixed point over the grammar IR + sibling IR equality',
     },
     'C16': {
-        'rules': [rule('T1'), rule('T2'), rule('T3')],
+        'rules': [rule('T1'), rule('T2'), rule('T3'), rule('T4'), rule('W5')],
         'explanation': 'Children are enumerated in source (field) order by every RefNodes conversion (T1) and by the generated '
                        'Node::next of all node types; RefNode::next / into_iter / From<&AnyNode> dispatch every variant to its own '
                        'payload (T2); Iter is constructed with its stack reversed exactly once at each of its construction sites (T3).',
-        'decided': 'T1 T2 T3 (narrow: enumeration order and dispatch)',
-        'not_decided': 'Iter::next, EventIter::next, unwrap_node!, get_str_trim as algorithms over all tree shapes',
+        'decided': 'T1 T2 T3 (enumeration order and dispatch) T4 W5 (the two stack machines, the first-match macros and get_str_trim inspected against enumerated forms)',
+        'not_decided': 'a proof of Iter/EventIter over all tree shapes (T4 checks the discipline: pop, expand reversed once onto the same stack, Leave before children — from which pre-order and balance follow by a short stack argument that is written in the evidence, not machine-checked)',
         'assumptions': [],
         'level_text': 'Exhaustive audit of generated and hand-written child enumeration (1242 types).',
         'level_note': 'narrow: the two iterator stack machines are not verified',
@@ -305,12 +305,13 @@ PROPS = {
         'needs_mir': True,
     },
     'C17': {
-        'rules': [rule('S4'), rule('G13'), rule('S3')],
+        'rules': [rule('S4'), rule('G13'), rule('S3'), rule('S1', keep=['PACKRAT', 'thread-local-count']), rule('S2')],
         'explanation': 'Necessary conditions for the memo being transparent: keys are unique (the memo is keyed by the bare function '
                        'name: G13a); the extra key covers every thread-local that memoised parsers (transitively) access (S4a); '
                        'memoised parsers have no effect besides their result (S4b); scopes are balanced so that a replayed result '
-                       'was computed in the same scope depth (S3).',
-        'decided': 'S4 G13 S3',
+                       'was computed in the same scope depth (S3); the table is emptied on the way into every entry, unconditionally, '
+                       'so a hit can only replay a result of the same parse over the same text (S1 for the memo key, S2).',
+        'decided': 'S4 G13 S3 S1(memo) S2',
         'not_decided': 'recursion flags carried in the span (nom-recursive) are also inputs of 93 memoised functions and not in the key — library design',
         'assumptions': [],
         'level_text': 'Effect/dependency analysis of all 1210 memoised parsers over the resolved call graph.',
